@@ -97,8 +97,9 @@ CHECKS = {
             {"pkg": "Havoc/pkg/db", "with": ["Havoc/pkg/agent", "Havoc/pkg/logr", "Havoc/pkg/common/parser", "Havoc/pkg/socks"], "entries": ["H_c10_links"], "shards": 3},
             {"pkg": "Havoc/pkg/db", "with": ["Havoc/pkg/agent", "Havoc/pkg/logr", "Havoc/pkg/common/parser", "Havoc/pkg/socks"], "entries": ["H_c10_agent_text"], "shards": 5},
             {"pkg": "Havoc/pkg/db", "with": ["Havoc/pkg/agent", "Havoc/pkg/logr", "Havoc/pkg/common/parser", "Havoc/pkg/socks"], "entries": ["H_c10_agent_life"], "shards": 3},
+            {"pkg": "Havoc/pkg/db", "with": ["Havoc/pkg/agent", "Havoc/pkg/logr", "Havoc/pkg/common/parser", "Havoc/pkg/socks"], "entries": ["H_c10_crash"], "shards": 3, "no_native_replay": True},
         ],
-        "bounds": "one session: id with arbitrary top byte (incl. >= 0x80000000) and fixed low 24 bits, 2-byte key and IV, metadata strings of 1..2 lower-case letters, 8..32 bit symbolic integers; insert, restart, restore, update, restart, death, restore. Metadata text: one of 5 text fields holds 1..3 arbitrary printable ASCII characters (digit-only, leading zeros, signs, blank padding), restart, compare. Links: every sequence of 1..3 add/remove operations over 3 agents (one id >= 0x80000000), restart, LinksOf/ParentOf/LinkExist against a reference relation. Listeners: every sequence of 1..3 add/remove operations over two arbitrary names of 1..2 printable characters with 2-character configuration text, restart, ListenerAll/Exist/Count. SQLite is a relational model that executes the SQL text the code really sends, with SQLite's type-affinity rules for integer-looking text and UNIQUE columns; every statement atomic and durable. Agent life: two sessions, every sequence of 1..3 (thorough 1..4) events out of {update as dead, reported dead by id, update as alive, removed}, restart. Result sets: every query opened by a finished operation is closed (model: an open one makes later writes fail with 'database is locked'; natively sql.DBStats.InUse == 0).",
+        "bounds": "one session: id with arbitrary top byte (incl. >= 0x80000000) and fixed low 24 bits, 2-byte key and IV, metadata strings of 1..2 lower-case letters, 8..32 bit symbolic integers; insert, restart, restore, update, restart, death, restore. Metadata text: one of 5 text fields holds 1..3 arbitrary printable ASCII characters (digit-only, leading zeros, signs, blank padding), restart, compare. Links: every sequence of 1..3 add/remove operations over 3 agents (one id >= 0x80000000), restart, LinksOf/ParentOf/LinkExist against a reference relation. Listeners: every sequence of 1..3 add/remove operations over two arbitrary names of 1..2 printable characters with 2-character configuration text, restart, ListenerAll/Exist/Count. SQLite is a relational model that executes the SQL text the code really sends, with SQLite's type-affinity rules for integer-looking text and UNIQUE columns; every statement atomic and durable. Agent life: two sessions, every sequence of 1..3 (thorough 1..4) events out of {update as dead, reported dead by id, update as alive, removed}, restart. Result sets: every query opened by a finished operation is closed (model: an open one makes later writes fail with 'database is locked'; natively sql.DBStats.InUse == 0). Crash: 1..3 (thorough 1..4) operations out of {register a1/a2, death, link add/remove, listener add/remove} with the process killed before the k-th write statement (k = 0..n, every statement atomic and durable): exactly the acknowledged operations survive.",
         "outside": "kill points inside a statement and journalling (each statement is atomic in the model), real-literal-looking text (digits with '.', 'e', 'E') in numeric-affinity columns, non-ASCII text, structs.Map/json listener configuration encoding (reflection); native replay exercises real SQLite for witnesses and counterexamples",
         "min_completed": 1,
     },
